@@ -2,6 +2,7 @@
   C12 — a battle is independent of where in the core it is placed (property theorems).
 -/
 import Gmars.Proofs.Abs
+import Gmars.Proofs.SpecRotate
 
 namespace Gmars.Props.C12
 open Gmars Gmars.Spec
@@ -20,5 +21,40 @@ theorem loadAt_congr (M : Nat) (c : Core) (off j : Nat) (code : List SInstr) :
     offset modulo M is given -/
 theorem first_task_congr (M off j start : Nat) : (off + j * M + start) % M = (off + start) % M := by
   rw [Nat.add_right_comm, Nat.add_mul_mod_self_right]
+
+/-- `exec_rotate` (reference semantics): one task is rotation-equivariant — executing at PC+k in
+    the core rotated by k gives the rotated core and the successors shifted by k, for every
+    instruction form, limits and core content -/
+theorem step_rotate {M : Nat} (R W k : Nat) (c : Core) (hc : c.length = M) {pc : Nat} (hpc : pc < M) :
+    step M R W (rot k c) ((pc + k) % M)
+      = ⟨rot k (step M R W c pc).core, (step M R W c pc).succ.map (fun a => (a + k) % M)⟩ :=
+  Spec.step_rotate R W k c hc hpc
+
+/-- loading a warrior into the rotated core at the shifted offset (wrapping past the last
+    address included) is the rotation of loading it at the original offset -/
+theorem load_rotate {M : Nat} (k : Nat) (c : Core) (hc : c.length = M) (hM : 0 < M) (off : Nat)
+    (code : List SInstr) : loadAt M (rot k c) ((off + k) % M) code = rot k (loadAt M c off code) :=
+  Spec.loadAt_rotate k c hc hM off code
+
+/-- `spawn_congr`: spawning at any offset congruent modulo the core size is the same call -/
+theorem spawn_congr (s : Api) (i : Int) (off j : Nat) : s.spawn i (off + j * s.M) = s.spawn i off :=
+  Spec.spawn_congr s i off j
+
+/-- spawning commutes with rotation -/
+theorem spawn_rotate (k : Nat) (s : Api) (h : s.WFs) (i : Int) (off : Nat) :
+    (rotApi k s).spawn i ((off + k) % s.M) = (s.spawn i off).map (rotApi k) :=
+  Spec.spawn_rotate k s h i off
+
+/-- `runCycle_rotate`: a whole cycle of the reference scheduler commutes with rotation and returns
+    the same living count -/
+theorem cycle_rotate (k : Nat) (s : Api) (h : s.WFs) :
+    ((rotApi k s).cycle).1 = rotApi k s.cycle.1 ∧ ((rotApi k s).cycle).2.2 = s.cycle.2.2 :=
+  Spec.cycle_rotate k s h
+
+/-- `run_rotate`: a whole battle commutes with rotation: same survivors and cycle count, final
+    core and queues rotated by the shift (`rotApi` keeps warrior states and the cycle counter) -/
+theorem run_rotate (k fuel : Nat) (s : Api) (h : s.WFs) :
+    ((rotApi k s).run fuel).1 = rotApi k (s.run fuel).1 :=
+  Spec.run_rotate k fuel s h
 
 end Gmars.Props.C12
